@@ -718,6 +718,30 @@ def run_state(case):
     serialization.save_state(first, path)
     compare(expected(saves[0]['state']), describe(serialization.load_state(path)),
             ['load_state'], notes)
+    # (a') device arrays keep what jax knows about them: a Python-scalar-born
+    # (weakly typed) array such as a learning rate or a step count restores as
+    # weakly typed, so arithmetic with lower-precision parameters keeps its dtype
+    r0 = saves[0]['round']
+    jstate = {'lr': jnp.asarray(0.125), 'count': jnp.asarray(r0 % 1000),
+              'half': jnp.full((2,), 1.5, jnp.float16), 'strong': jnp.float32(0.125) * jnp.ones(())}
+    jpath = os.path.join(d, 'jstate.pkl')
+    serialization.save_state(jstate, jpath)
+    jback = serialization.load_state(jpath)
+    require(isinstance(jback, dict) and sorted(jback) == sorted(jstate), 'state:jax_leaves:structure',
+            lambda: f'{type(jback).__name__}')
+    for k in sorted(jstate):
+      a, b = jstate[k], jback[k]
+      require(np.asarray(b).dtype == np.asarray(a).dtype and
+              np.array_equal(np.asarray(a), np.asarray(b)), 'state:jax_leaves:value_or_dtype',
+              lambda: f'{k}: {np.asarray(a).dtype} {np.asarray(a).tolist()} -> '
+                      f'{np.asarray(b).dtype} {np.asarray(b).tolist()}')
+      require(getattr(b, 'weak_type', None) == getattr(a, 'weak_type', None),
+              'state:jax_leaves:weak_type_changed',
+              lambda: f'{k}: weak_type {getattr(a, "weak_type", None)} -> '
+                      f'{getattr(b, "weak_type", None)} ({type(b).__name__})')
+    require((jback['half'] * jback['lr']).dtype == (jstate['half'] * jstate['lr']).dtype,
+            'state:jax_leaves:arithmetic_dtype_changed',
+            lambda: f'{(jstate["half"] * jstate["lr"]).dtype} -> {(jback["half"] * jback["lr"]).dtype}')
     # (b) checkpoints
     root = os.path.join(d, case.get('dirname', 'ckpt'))
     os.makedirs(root)
